@@ -90,6 +90,14 @@ def build_unit(work, name, u):
         for p_ in parts: os.unlink(p_)
     else:
         os.rename(parts[0], linked)
+    if u.get('stubs_re'):
+        # stubs chosen by pattern (template instantiations over lambda types whose mangled names contain a running number)
+        pat = re.compile(u['stubs_re']); found = set()
+        for m_ in re.finditer(r'^define [^@]*@("[^"]*"|[-a-zA-Z$._0-9]+)\(', open(linked).read(), re.M):
+            nm_ = m_.group(1).strip('"')
+            if pat.search(nm_): found.add(m_.group(1))
+        if not found: raise Broken('unit %s: stubs_re %r matches no function of the translation unit' % (name, u['stubs_re']))
+        u = dict(u); u['stubs'] = sorted(set(u.get('stubs', [])) | found)
     if mode == 'inl' and not u.get('noinline'):
         if len(srcs) > 1:
             r = sh(['opt-14', '-S', '-O1', '-vectorize-loops=false', '-vectorize-slp=false', linked, '-o', ll])
@@ -118,6 +126,15 @@ def build_unit(work, name, u):
     r = sh(cmd)
     if r.returncode: raise Broken('ir2c failed for unit %s:\n%s' % (name, r.stdout[-3000:]))
     inf = json.load(open(info)); inf['seconds'] = round(time.time() - t0, 2); inf['mode'] = mode; inf['source'] = ', '.join(srcs)
+    if u.get('alias'):
+        # give pattern-selected externs (names containing lambda numbers) a stable C name the harness can define
+        txt = open(c).read()
+        for rx, al in u['alias'].items():
+            hits = [e for e in inf['externs'] if re.search(rx, e)]
+            if len(hits) != 1: raise Broken('unit %s: alias pattern %r matches %d externs' % (name, rx, len(hits)))
+            cn = re.sub(r'[^A-Za-z0-9_]', lambda m: '_%02x' % ord(m.group(0)), hits[0].strip('"'))
+            txt = re.sub(r'\b' + re.escape(cn) + r'\b', al, txt)
+        open(c, 'w').write(txt)
     return {'c': c, 'info': inf, 'll': ll}
 
 # ----------------------------------------------------------------------------- cbmc
@@ -295,7 +312,7 @@ def build_offsets(spec, work):
     txt = ''
     for s_ in srcs:
         exe = os.path.join(work, 'offgen_' + os.path.basename(s_).replace('.cc', ''))
-        r = sh(['g++', '-w'] + CXXDEFS + [os.path.join(VERIF, s_), '-o', exe])
+        r = sh(['g++', '-w', '-O1', '-ffunction-sections', '-fdata-sections', '-no-pie', '-fno-pie'] + CXXDEFS + [os.path.join(VERIF, s_), '-Wl,--gc-sections', '-Wl,--unresolved-symbols=ignore-all', '-o', exe])
         if r.returncode: raise Broken('offsets generator %s failed to compile:\n%s' % (s_, r.stdout[-2000:]))
         r = subprocess.run([exe], stdout=subprocess.PIPE, text=True)
         if r.returncode: raise Broken('offsets generator %s failed' % s_)
